@@ -16,6 +16,7 @@ _prog = {}
 
 
 def program(tag="A"):
+    tag = os.environ.get("VERIF_CONFIG", tag)     # thorough tier: second pass over the feature-less build (B)
     if tag not in _prog:
         _prog[tag] = Program(tag, crates=["rustzx_z80"])
     return _prog[tag]
